@@ -44,7 +44,13 @@ def random_supported_circuit(rng, n_inputs=None, n_gates=None):
         outs.append(non_in[-1])
     if rng.random() < 0.2:
         outs.insert(rng.randrange(len(outs) + 1), rng.choice(outs))     # an output listed twice
-    return {'inputs': [l for l, t, _ in order if t == 'INPUT'], 'outputs': outs, 'gates': order,
+    ins_ = [l for l, t, _ in order if t == 'INPUT']
+    if rng.random() < 0.25:
+        # the gate map need not be stored operands-first (bench text with forward references, rename_gate, an
+        # earlier replace_subcircuit): same circuit, another storage order
+        order = list(order)
+        rng.shuffle(order)
+    return {'inputs': ins_, 'outputs': outs, 'gates': order,
             'users': list(users.items()), 'blocks': []}
 
 
